@@ -10,6 +10,8 @@ CONSTANTS
   Emit = TRUE
   CharSigned = TRUE
   EUSuffixed = {0, 1, 63, 64, 127, 128, 2047, 2048, 4095}
+  GenClasses = {"scalar", "array", "bitfield", "nested", "anon", "alignas", "flex"}
+  GenPacked = TRUE
   CheckSim = FALSE
 INVARIANTS Inv_EmitEnum
 CHECK_DEADLOCK FALSE
